@@ -7,10 +7,12 @@ import lib_fsm
 import vlib
 
 AREA = "Fsm"
-THEOREMS = [("Arc.Fsm.PropsC23", "C23_writer_consistent_guarded"),
+THEOREMS = [("Arc.Fsm.PropsC23", "C23_writer_consistent"),
+            ("Arc.Fsm.PropsC23", "C23_readd_keeps_writer_state"),
+            ("Arc.Fsm.PropsC23", "C23_rbac_refs_ok"),
+            ("Arc.Fsm.PropsC23", "C23_writer_consistent_guarded"),
             ("Arc.Fsm.PropsC23", "C23_writer_consistent_meaning"),
             ("Arc.Fsm.PropsC23", "C23_readd_keeps_writer_state_guarded"),
-            ("Arc.Fsm.PropsC23", "C23_rbac_refs_ok"),
             ("Arc.Fsm.PropsC23", "C23_promote_unknown_refuted"),
             ("Arc.Fsm.PropsC23", "C23_two_primaries_refuted"),
             ("Arc.Fsm.PropsC23", "C23_readd_primary_refuted"),
